@@ -31,6 +31,7 @@ type CommitRec struct {
 	At    time.Duration // simulated time since run start
 	Wall  time.Time     // simulated wall clock (with offset)
 	WallIn time.Time    // simulated wall clock when Store was entered
+	AtIn   time.Duration // simulated (monotonic) time when Store was entered
 	Step  int
 	Cat   *lungo.Catalog
 	Prev  *lungo.Catalog // engine catalog at the time of the call
@@ -71,6 +72,8 @@ type Env struct {
 	baseCat *lungo.Catalog // catalog loaded when the current engine was opened
 	attempt *lungo.Catalog // catalog handed to the store by the commit in progress
 	diskFaultHit map[int]bool
+	wallSteps    []wallStep // wall clock steps of the run
+	diskFull     bool // every open and write fails with ENOSPC while set (the diskfull pseudo operation)
 	maxTS   primitive.Timestamp
 	tsEpoch int
 
@@ -166,6 +169,26 @@ func (e *Env) failed() bool { return e.out.Violation != nil }
 // ErrInjected is the error returned by injected store faults.
 var ErrInjected = errors.New("injected store failure")
 
+// wallStep is one step of the wall clock: the monotonic instant and what the wall clock showed just before.
+type wallStep struct {
+	At     time.Duration
+	Before time.Time
+}
+
+// wallCandidates returns the wall clock readings a task can have taken at the monotonic instant at which
+// the commit entered the store: the one recorded there and, if the wall clock was stepped at that very
+// instant by another task, the readings before those steps. (Between reading the clock and entering the
+// store a commit does not wait for simulated time, but other tasks run.)
+func (e *Env) wallCandidates(c *CommitRec) []time.Time {
+	out := []time.Time{c.WallIn}
+	for _, s := range e.wallSteps {
+		if s.At == c.AtIn {
+			out = append(out, s.Before)
+		}
+	}
+	return out
+}
+
 // SimStore wraps the store of the run: scheduling point, fault point and
 // recorder of the commit history.
 type SimStore struct {
@@ -194,6 +217,7 @@ func (s *SimStore) Store(c *lungo.Catalog) error {
 	n := e.storeCalls
 	e.storeCalls++
 	wallIn := time.Now().Add(e.sim.WallOffset())
+	atIn := e.sim.Elapsed()
 	e.noteWall()
 	f, has := e.storeFaults[n]
 	if has && f.Kind == "store-latency" {
@@ -226,7 +250,7 @@ func (s *SimStore) Store(c *lungo.Catalog) error {
 		e.logf("store call %d: injected failure after persisting", n)
 		return ErrInjected
 	}
-	rec := &CommitRec{Seq: len(e.commits), Task: e.sim.Current(), At: e.sim.Elapsed(), Wall: time.Now().Add(e.sim.WallOffset()), WallIn: wallIn, Step: e.sim.Steps(), Cat: c, Epoch: e.epoch}
+	rec := &CommitRec{Seq: len(e.commits), Task: e.sim.Current(), At: e.sim.Elapsed(), Wall: time.Now().Add(e.sim.WallOffset()), WallIn: wallIn, AtIn: atIn, Step: e.sim.Steps(), Cat: c, Epoch: e.epoch}
 	if len(e.commits) > 0 && e.commits[len(e.commits)-1].Epoch == e.epoch {
 		rec.Prev = e.commits[len(e.commits)-1].Cat
 	} else {
@@ -290,6 +314,15 @@ func (e *Env) setupDisk() {
 			dec.Latency = time.Duration(e.plan.Cfg.DiskLatMs) * time.Millisecond
 		}
 		f, ok := e.diskFaults[op.N]
+		if !ok && e.diskFull && (op.Kind == "open" || op.Kind == "write") {
+			dec.Action = simos.Fail
+			dec.Errno = syscall.ENOSPC
+			if op.Kind == "write" {
+				dec.Short = 0
+			}
+			e.fault("disk-full:" + op.Kind)
+			return dec
+		}
 		if !ok || op.Kind == "readfile" {
 			// faults while loading are not part of any commit: a failed or killed load is just another restart
 			return dec
